@@ -87,6 +87,11 @@ def worker(config, tier, seed):
 def run(config, tier, seed):
     naming = config.get("naming", {})
     r_h, b_h, m_h = build({**config, "formalism": "helicity", "naming": naming})
+    if config.get("history"):
+        # the same builder is used again after a naming flag was changed (stale per-builder state must not leak)
+        for flag, val in config["history"].items():
+            setattr(b_h.naming, flag, val)
+        m_h = b_h.formulate()
     r_c, b_c, m_c = build({**config, "formalism": "canonical-helicity", "naming": naming})
     ctx = Ctx(config["name"])
     tr = Translator(ctx, complex_symbols=is_coeff)
@@ -189,6 +194,8 @@ def configs(tier):
         names += ["J/psi->K0 Sigma+ p~", "J/psi->pi0 omega(->gamma pi0)"]
     out = [{"name": n, "reaction": n} for n in names]
     out.append({"name": "J/psi->K*+ K- (K*->K+ pi0)|parent-helicities", "reaction": "J/psi->K*+ K- (K*->K+ pi0)", "naming": {"insert_parent_helicities": True}})
+    out.append({"name": "J/psi->K*+ K- (K*->K+ pi0)|formulate, set parent-helicities, formulate again", "reaction": "J/psi->K*+ K- (K*->K+ pi0)",
+                "history": {"insert_parent_helicities": True}})  # fmt: skip
     return out
 
 
